@@ -256,17 +256,19 @@ func mapDynamoToTypesItem(item dynamodbtypes.AttributeValue) *types.Item {
 			return &types.Item{B: []byte{}}
 		}
 
-		return &types.Item{B: itemB.Value}
+		return &types.Item{B: copyBytes(itemB.Value)}
 	}
 
 	itemBOOL, ok := item.(*dynamodbtypes.AttributeValueMemberBOOL)
 	if ok {
-		return &types.Item{BOOL: &itemBOOL.Value}
+		value := itemBOOL.Value
+
+		return &types.Item{BOOL: &value}
 	}
 
 	itemBS, ok := item.(*dynamodbtypes.AttributeValueMemberBS)
 	if ok {
-		return &types.Item{BS: itemBS.Value}
+		return &types.Item{BS: copyBytesSlice(itemBS.Value)}
 	}
 
 	itemS, ok := item.(*dynamodbtypes.AttributeValueMemberS)
@@ -544,7 +546,7 @@ func mapTypesToDynamoLocalSecondaryIndexes(input []types.LocalSecondaryIndexDesc
 func mapTypesToDynamoItem(item *types.Item) dynamodbtypes.AttributeValue {
 	if item.B != nil {
 		return &dynamodbtypes.AttributeValueMemberB{
-			Value: item.B,
+			Value: copyBytes(item.B),
 		}
 	}
 
@@ -556,7 +558,7 @@ func mapTypesToDynamoItem(item *types.Item) dynamodbtypes.AttributeValue {
 
 	if len(item.BS) != 0 {
 		return &dynamodbtypes.AttributeValueMemberBS{
-			Value: item.BS,
+			Value: copyBytesSlice(item.BS),
 		}
 	}
 
@@ -684,4 +686,30 @@ func mapKnownError(err error) error {
 	}
 
 	return err
+}
+
+// the stored data must not share memory with the structures of the caller
+
+func copyBytes(b []byte) []byte {
+	if b == nil {
+		return nil
+	}
+
+	out := make([]byte, len(b))
+	copy(out, b)
+
+	return out
+}
+
+func copyBytesSlice(bs [][]byte) [][]byte {
+	if bs == nil {
+		return nil
+	}
+
+	out := make([][]byte, len(bs))
+	for i, b := range bs {
+		out[i] = copyBytes(b)
+	}
+
+	return out
 }
